@@ -336,6 +336,21 @@ Proof.
   intros Hf. rewrite (verify_first_fail signed t None Hf), FirstFail_none. apply rules_all_wf. exact Hf.
 Qed.
 
+(* the count clauses: an accepted transaction has at most 65535 signatures /
+   inputs / outputs, and a well-formed one with exactly 65535 is accepted
+   (verify_iff) *)
+Lemma verify_ok_counts signed t : facts_consistent t -> verify signed t = Val None ->
+  len (t_sigs t) = len (t_ins t) /\ 1 <= len (t_ins t) <= MaxUint16 /\ 1 <= len (t_outs t) <= MaxUint16.
+Proof.
+  intros Hf H. pose proof Hf as (_ & Hsize & _ & _).
+  apply (verify_iff signed t Hf) in H. destruct H as (Hi & Ho & Hl & _ & _ & _ & _ & _ & Hsz & _).
+  assert (Hno : ~ over t) by (intros Hov; apply Hsize in Hov; congruence).
+  unfold over, MaxUint16 in *. split; [apply len_eq; exact Hl|].
+  assert (len (t_ins t) <> 0) by (intros Hc; apply len_zero in Hc; contradiction).
+  assert (len (t_outs t) <> 0) by (intros Hc; apply len_zero in Hc; contradiction).
+  unfold len in *. lia.
+Qed.
+
 (* ------------------------------------------- decidable form of well_formed *)
 
 Lemma nodupb_spec {A} (eqb : A -> A -> bool) (l : list A) :
@@ -401,13 +416,26 @@ Proof.
   apply wf_core_spec; cbv beta; [apply (nodupb_spec Z.eqb _ Z.eqb_eq)|apply (nodupb_spec txout_eqb _ txout_eqb_spec)].
 Qed.
 
+Lemma pair2_nonneg x y : 0 <= x -> 0 <= y -> 0 <= pair2 x y.
+Proof. unfold pair2. nia. Qed.
+
+Lemma pair2_inj x y x' y' : 0 <= x -> 0 <= y -> 0 <= x' -> 0 <= y' ->
+  pair2 x y = pair2 x' y' -> x = x' /\ y = y'.
+Proof.
+  unfold pair2. intros Hx Hy Hx' Hy' H.
+  assert (Hs : x + y = x' + y').
+  { destruct (Z.lt_trichotomy (x + y) (x' + y')) as [Hlt|[Heq|Hgt]]; [exfalso; nia|exact Heq|exfalso; nia]. }
+  split; nia.
+Qed.
+
 Lemma out_code_inj a b :
-  in_u 64 (o_coins a) -> in_u 64 (o_hours a) -> in_u 64 (o_coins b) -> in_u 64 (o_hours b) ->
+  0 <= o_addr a -> 0 <= o_coins a -> 0 <= o_hours a -> 0 <= o_addr b -> 0 <= o_coins b -> 0 <= o_hours b ->
   out_code a = out_code b -> a = b.
 Proof.
-  unfold out_code, in_u. destruct a as [a1 a2 a3], b as [b1 b2 b3]. cbn [o_addr o_coins o_hours].
-  rewrite pow64. intros Ha2 Ha3 Hb2 Hb3 H.
-  assert (a1 = b1 /\ a2 = b2 /\ a3 = b3) as (-> & -> & ->) by nia. reflexivity.
+  unfold out_code. destruct a as [a1 a2 a3], b as [b1 b2 b3]. cbn [o_addr o_coins o_hours].
+  intros Ha1 Ha2 Ha3 Hb1 Hb2 Hb3 H.
+  apply pair2_inj in H; try assumption; try (apply pair2_nonneg; assumption).
+  destruct H as [H ->]. apply pair2_inj in H; try assumption. destruct H as [-> ->]. reflexivity.
 Qed.
 
 Lemma NoDup_map_inj_on {A B} (f : A -> B) (l : list A) :
@@ -421,14 +449,14 @@ Proof.
 Qed.
 
 Lemma well_formed_fast_b_spec signed t :
-  Forall (fun o => in_u 64 (o_coins o) /\ in_u 64 (o_hours o)) (t_outs t) ->
+  Forall (fun o => 0 <= o_addr o /\ 0 <= o_coins o /\ 0 <= o_hours o) (t_outs t) ->
   (well_formed_fast_b signed t = true <-> well_formed signed t).
 Proof.
   intros Hr. apply wf_core_spec; cbv beta; [apply distinct_count_b|].
   replace (len (t_outs t)) with (len (map out_code (t_outs t))) by (unfold len; rewrite map_length; reflexivity).
   rewrite distinct_count_b. split; [apply NoDup_map_inv|].
   apply NoDup_map_inj_on. intros x y Hx Hy. rewrite Forall_forall in Hr.
-  destruct (Hr x Hx), (Hr y Hy). apply out_code_inj; assumption.
+  destruct (Hr x Hx) as (? & ? & ?), (Hr y Hy) as (? & ? & ?). apply out_code_inj; assumption.
 Qed.
 
 (* ----------------------------------------------- VerifyInputSignatures *)
